@@ -111,11 +111,11 @@ def run_case(harness, case, timeout_ms=10000, max_paths=20000, want_smt2=False, 
             res["undecided"].append({"reason": "recursion limit"})
         except Exception:
             res["errors"].append(traceback.format_exc())
-        stale = _stale_loop_contracts(I)
+        stale = _stale_loop_contracts(I) + ["cut widened by writes of called methods: " + x for x in sorted(I.loop_cuts_widened)]
         if stale and any(ob.verdict == "refuted" for ob in eng.obligations):
             # a loop contract whose loop was rewritten is not applied: the loop is unrolled from its entry state WITHOUT the ghost facts the
             # contract instantiates at the loop head, so a failed obligation on such a path is no counterexample - the path is undecided
-            res["undecided"].append({"reason": "unsupported: loop contract %s matches no loop of the current source (loop rewritten?); %d failed obligation(s) of this "
+            res["undecided"].append({"reason": "unsupported: loop contract %s no longer fits the current source (loop rewritten?); %d failed obligation(s) of this "
                                                "path are not counterexamples" % ("; ".join(stale), sum(ob.verdict == "refuted" for ob in eng.obligations))})
         for ob in eng.obligations:
             if stale and ob.verdict == "refuted":
